@@ -527,7 +527,7 @@ func main() {
 	c.Res.Rule = "case = one announcement group (all frames one AnnounceLocalRoutes / one origin group of SendFullTable emitted): " +
 		"payload bytes compared with Model/Announce.v's builder on the emitted route list; non-trivial = at least 2 routes and all " +
 		"frames decodable; distinct = distinct (kind, route counts, field lengths). The monitor compares the receiving routing tables with the sender's."
-	rn := &runner{c: c, maxRec: c.N(1000, 150)}
+	rn := &runner{c: c, maxRec: c.N(1000, 100)}
 
 	if c.Replay != "" {
 		var sc scenario
